@@ -16,7 +16,7 @@ use serde_json::Value;
 pub fn def() -> PropDef {
     PropDef {
         id: "C01",
-        rule: "inputs: spec-conformant ADC/chunk/PWB/TRG packets and FIFO streams with 0-3 field mutations and 0-2 byte/bit/length edits, chunk lists with single faults in any order, raw random bytes, all strings over an alphabet up to length 4 plus random UTF-8, all small integer ids; every decoder, accessor and formatter is called on each; non-trivial = the input passes the first length gate of the decoder it was built for (so arithmetic on wire-controlled fields is reached), distinct by content hash",
+        rule: "inputs: spec-conformant ADC/chunk/PWB/TRG packets and FIFO streams with 0-3 field mutations and 0-2 byte/bit/length edits, chunk lists with single faults in any order, raw random bytes, all strings over an alphabet up to length 4 plus random UTF-8 plus names of 256 / 512 / 65536 +- 4 bytes built around accepted names, all small integer ids; every decoder, accessor and formatter is called on each; non-trivial = the input passes the first length gate of the decoder it was built for (so arithmetic on wire-controlled fields is reached), distinct by content hash",
         assumptions: &[
             "a panic anywhere inside a decoder, accessor, Display or Debug call is a violation; Err is not",
             "the same checks are run in a build with overflow checks and in one without (see coverage.profile / merged evidence)",
@@ -272,6 +272,12 @@ fn run(r: &Run) {
     let total_strings = (0..=4).map(|l| (alpha.len() as u64).pow(l)).sum();
     r.enumerate("strings_exhaustive", total_strings, move |i, ev| string_total(&string_at(alpha, i), ev));
     r.prop("strings_utf8", t.pick(40_000, 2_000_000), || "\\PC{0,12}|[BCP][C0-9][0-9][0-9A-Za-z]\\PC{0,2}|[A-Z\\u{80}-\\u{7ff}]{1,5}", |s: &String, ev| string_total(s, ev));
+    r.prop("strings_long", t.pick(20_000, 1_000_000), names::long_name, |s: &String, ev| {
+        ev.label(if s.len() % 256 == 4 { "long-name:length 4 mod 256" } else { "long-name:other length" });
+        string_total(s, ev)?;
+        ev.nontrivial(fingerprint(s));
+        Ok(())
+    });
     r.enumerate("ids", 70_000, ids_total);
 }
 
@@ -292,7 +298,7 @@ fn replay(r: &Run, check: &str, case: &Value) -> Option<Outcome> {
         "chunk_lists" => replay_case(case, chunk_list),
         "raw_bytes" => replay_case(case, |b: &Vec<u8>, ev| total(b, Gate::Raw, ev)),
         "raw_64k" => replay_case(case, big_total),
-        "strings_utf8" => replay_case(case, |s: &String, ev| string_total(s, ev)),
+        "strings_long" | "strings_utf8" => replay_case(case, |s: &String, ev| string_total(s, ev)),
         "raw_file" => replay_case(case, |b: &Vec<u8>, ev| total(b, Gate::Raw, ev)),
         _ => return None,
     })
